@@ -109,12 +109,35 @@ func CheckAPI(seq []exact.Member, bits bool) (class, detail string, facts map[st
 
 // CheckSchema puts the sequence into a module and observes Process and Entry.Type.
 func CheckSchema(seq []exact.Member, bits bool) (class, detail string) {
+	return CheckSchemaAt(seq, bits, 0)
+}
+
+// CheckSchemaAt writes the member list in one of four places: (0) the type statement of a
+// leaf, (1) a typedef the leaf uses through a second typedef, (2) the second member of a
+// union, (3) a type statement that refers to a typedef of the same kind which has members of
+// its own (goyang reads such a list as the type's member list; re-listing as a YANG 1.1
+// restriction is not implemented), so the written list is what counts in all four.
+func CheckSchemaAt(seq []exact.Member, bits bool, place int) (class, detail string) {
 	var b strings.Builder
-	b.WriteString("module m { namespace \"urn:m\"; prefix m; leaf l { type ")
+	kind := "enumeration"
 	if bits {
-		b.WriteString("bits {")
-	} else {
-		b.WriteString("enumeration {")
+		kind = "bits"
+	}
+	tail := " } } }"
+	switch place {
+	case 1:
+		b.WriteString("module m { namespace \"urn:m\"; prefix m; typedef t2 { type t1; } leaf l { type t2; } typedef t1 { type " + kind + " {")
+	case 2:
+		b.WriteString("module m { namespace \"urn:m\"; prefix m; leaf l { type union { type string; type " + kind + " {")
+		tail = " } } } }"
+	case 3:
+		own := "enum zz0; enum zz1 { value 5; } enum zz2;"
+		if bits {
+			own = "bit zz0; bit zz1 { position 5; } bit zz2;"
+		}
+		b.WriteString("module m { namespace \"urn:m\"; prefix m; typedef base { type " + kind + " { " + own + " } } leaf l { type base {")
+	default:
+		b.WriteString("module m { namespace \"urn:m\"; prefix m; leaf l { type " + kind + " {")
 	}
 	for _, m := range seq {
 		kw, vk := "enum", "value"
@@ -127,7 +150,7 @@ func CheckSchema(seq []exact.Member, bits bool) (class, detail string) {
 			fmt.Fprintf(&b, " %s %s;", kw, m.Name)
 		}
 	}
-	b.WriteString(" } } }")
+	b.WriteString(tail)
 	want, invalidAt, reason := exact.Assign(seq, bits)
 	ms := yang.NewModules()
 	if err := ms.Parse(b.String(), "m.yang"); err != nil {
@@ -144,6 +167,12 @@ func CheckSchema(seq []exact.Member, bits bool) (class, detail string) {
 		return "schema-rejects-valid", fmt.Sprintf("[%s]: %v", seqString(seq), errs[0])
 	}
 	t := yang.ToEntry(ms.Modules["m"]).Dir["l"].Type
+	if place == 2 {
+		if len(t.Type) != 2 {
+			return "schema-no-type", seqString(seq)
+		}
+		t = t.Type[1]
+	}
 	et := t.Enum
 	if bits {
 		et = t.Bit
@@ -152,6 +181,9 @@ func CheckSchema(seq []exact.Member, bits bool) (class, detail string) {
 		return "schema-no-type", seqString(seq)
 	}
 	nm := et.NameMap()
+	if len(nm) != len(seq) {
+		return "schema-members", fmt.Sprintf("[%s] (place %d): the type has the members %v", seqString(seq), place, nm)
+	}
 	for i, m := range seq {
 		if nm[m.Name] != want[i] {
 			return "schema-value", fmt.Sprintf("[%s]: %s = %d, RFC value %d", seqString(seq), m.Name, nm[m.Name], want[i])
@@ -189,8 +221,10 @@ func Enum(j *job.Job, s *job.Sink) {
 			}
 			if idx%int64(schemaEvery) == 0 && !hasEmpty {
 				s.Count("schema_cases", 1)
-				if c, d := CheckSchema(seq, bits); c != "" {
-					s.Violation(idx, j.CaseID(idx), "C14.schema", c, d, map[string]any{"sequence": seqString(seq), "bits": bits}, nil)
+				place := int(idx/int64(schemaEvery)) % 4
+				s.Count(fmt.Sprintf("schema_cases_place_%d", place), 1)
+				if c, d := CheckSchemaAt(seq, bits, place); c != "" {
+					s.Violation(idx, j.CaseID(idx), "C14.schema", c, d, map[string]any{"sequence": seqString(seq), "bits": bits, "place": place}, nil)
 				}
 			}
 		}
